@@ -141,7 +141,7 @@ func rulesC19(c *Ctx) {
 			okSubmit := &Cond{Name: "submission succeeded", Match: func(ft *Fact, _ *Origins) bool {
 				return ft.Kind == "errnil" && ft.Pos && ft.A.K == "call" && ft.A.Call == s
 			}}
-			incrOK := &Cond{Name: "counter advanced", Via: func(*ssa.Function) bool { return false }, Match: func(ft *Fact, _ *Origins) bool {
+			incrOK := &Cond{Name: "counter advanced", Via: func(g *ssa.Function) bool { return c.P.IsNewFunc(g) }, Match: func(ft *Fact, _ *Origins) bool {
 				if ft.Kind == "errnil" && ft.Pos && ft.A.K == "call" && ft.A.Call != nil && c.isIncr(c.P.Describe(ft.A.Call)) {
 					return true
 				}
@@ -193,7 +193,7 @@ func rulesC19(c *Ctx) {
 				// a PENDING answer: the mint keeps the blank outputs and signs them when the payment settles, so
 				// they count as submitted for signing although no signature came back yet
 				pendingC, _ := c.P.ConstVal("cashu/nuts/nut05", "Pending")
-				onlyIncr := &Cond{Name: "counter advanced", Via: func(*ssa.Function) bool { return false }, Match: func(ft *Fact, _ *Origins) bool {
+				onlyIncr := &Cond{Name: "counter advanced", Via: func(g *ssa.Function) bool { return c.P.IsNewFunc(g) }, Match: func(ft *Fact, _ *Origins) bool {
 					return ft.Kind == "errnil" && ft.Pos && ft.A.K == "call" && ft.A.Call != nil && c.isIncr(c.P.Describe(ft.A.Call))
 				}}
 				cutP := NewCut()
